@@ -574,6 +574,21 @@ func (in *Interp) sbRead(sb *SymBytes, idx *smt.Term) *smt.Term {
 		return smt.BV(uint64(s.Str[pos.U]), 8)
 	}
 	code := smt.App(smt.KInt, 0, "str.to_code", smt.App(smt.KStr, 0, "str.at", s, smt.BV2Int(pos)))
+	if pos.Const && pos.U == 0 {
+		if d, ok := in.Ghost["tree:"+s.S].(*boundDoc); ok && d.Root != nil {
+			// the first byte of a well-formed document: '<' or white space before the root (byte order marks and
+			// other prologues are outside the scenarios); the concretiser honours the choice
+			in.X.noteAssumption("a scenario document starts with '<' or with one white-space character before its root (no byte order mark)")
+			var alts []*smt.Term
+			for _, c := range []int64{'<', ' ', '\n', '\t', '\r'} {
+				alts = append(alts, smt.Eq(code, smt.IntLit(c)))
+			}
+			in.assumeOnce(smt.Or(alts...))
+			if ir := in.inputIdx[d.Name]; ir != nil {
+				ir.Extra["first_byte"] = smt.Int2BV(code, 8)
+			}
+		}
+	}
 	return smt.Int2BV(code, 8)
 }
 
